@@ -245,7 +245,11 @@ func main() {
 			}
 			closeFn()
 			if !pilotOK {
-				r.Violation(r.CaseAlways("pilot", idx), fmt.Sprintf("fault-free-run-fails:%+v", sh), fmt.Sprintf("err=%v escaped=%q", perr, esc), sh)
+				if esc != "" {
+					r.Violation(r.CaseAlways("pilot", idx), "panic-escapes-run:fault-free", esc, sh)
+				} else {
+					r.Inconclusive(fmt.Sprintf("the fault-free pilot run of shape %+v did not succeed (err=%v): no fault enumeration possible for it", sh, perr))
+				}
 				continue
 			}
 			r.Count("pilot runs", 1)
